@@ -29,7 +29,7 @@ func init() {
 			"distinct = distinct input bytes; non-trivial = differs from a valid BOC",
 		Assume: []string{
 			"allocation bound checked: 4 KiB per input byte + 1 MiB per parse (measured with runtime/metrics in a single-threaded worker)",
-			"worker processes run with RLIMIT_AS 12 GiB and a 96 MiB stack limit; a worker death or 40 s without progress is attributed to the journaled case",
+			"worker processes run with RLIMIT_AS 12 GiB and a 96 MiB stack limit; a worker death or 120 s without progress is attributed to the journaled case",
 			"on success the returned graph is walked by pointer (acyclic, <=1023 bits, <=4 refs, NextRef reaches every ref) before Hash/ToBoc/ToString are called; an error from those calls is accepted, a panic is not",
 			"purely random bytes are represented by the all-values substitution grid and the adversarial header grammar (no sampling is used)",
 		},
@@ -258,7 +258,7 @@ func harnesses(r *fw.Run) []fw.HarnessSpec {
 		si := c.ChooseFree(len(seeds))
 		s := seeds[si]
 		n := c.ChooseFree(len(s) + 1) // n == len(s): the valid seed itself
-		ext := c.ChooseFree(3)         // 0: as is, 1: one trailing zero byte, 2: trailing 0xff
+		ext := c.ChooseFree(3)        // 0: as is, 1: one trailing zero byte, 2: trailing 0xff
 		in := append([]byte{}, s[:n]...)
 		if ext > 0 {
 			in = append(in, []byte{0, 0xff}[ext-1])
@@ -341,6 +341,31 @@ func harnesses(r *fw.Run) []fw.HarnessSpec {
 			c.Outcome(probe(c, in, "real-subst", false))
 		})
 	}
+
+	// heavily shared DAGs ("fork bombs"): n cells, each referencing the next one f times. The unfolded tree has f^n nodes,
+	// so Hash / ToBoc / ToString / MarshalJSON only terminate if they are bounded by the DAG (or by an explicit budget).
+	add("fork-bombs", 0, 8, func(c *enum.Ctx) {
+		n := []int{1, 10, 16, 17, 18, 24, 30, 60, 100}[c.ChooseFree(9)]
+		f := 1 + c.ChooseFree(4)
+		variant := c.ChooseFree(2)
+		cur := cell.MustNew([]byte{0x01}, 8, nil, false)
+		for i := 1; i < n; i++ {
+			refs := make([]*cell.Cell, f)
+			for j := range refs {
+				refs[j] = cur
+			}
+			cur = cell.MustNew([]byte{byte(i), byte(i >> 8)}, 16, refs, false)
+		}
+		in, _ := rboc.Serialize([]*cell.Cell{cur}, rboc.Options{Index: variant == 1, CRC: variant == 1})
+		c.Case([]byte(fmt.Sprintf("fork/%d/%d/%d", n, f, variant)), n > 1)
+		c.Sample(map[string]any{"cells": n, "fanout": f, "unfolded_nodes": fmt.Sprintf("%d^%d", f, n-1), "bytes": len(in)})
+		c.Label("fork bomb: %d cells, each referencing the next %d times (%d bytes)", n, f, len(in))
+		out := probe(c, in, "fork", true)
+		if out != "roots" && out != "" {
+			c.Fail("fork-bomb-rejected", "a conforming heavily shared BOC was not parsed: %s", out)
+		}
+		c.Outcome(out)
+	})
 
 	add("adversarial-headers", r.Pick(2, 3), 32, func(c *enum.Ctx) { adversarial(c, seed) })
 	return hs
